@@ -490,7 +490,10 @@ int EGLPNUM_TYPENAME_ILLsimplex_retest_psolution (
 
 	if (phase == PRIMAL_PHASEII)
 	{
-		if (fbid < bid - PARAM_PRIMAL_RESOLVEGAP)
+		/* under partial pricing dz[] is only kept up to date for the columns in
+		 * the current candidate list: recompute it before judging optimality */
+		if (fbid < bid - PARAM_PRIMAL_RESOLVEGAP ||
+				(p != NULL && p->p_strategy != COMPLETE_PRICING))
 		{
 			EGLPNUM_TYPENAME_ILLfct_compute_piz (lp);
 			EGLPNUM_TYPENAME_ILLfct_compute_dz (lp);
